@@ -54,6 +54,7 @@ type Node struct {
 	ops []nodeOp
 
 	hasUndo, hasRestore, hasCacheOps bool
+	hasForged                        bool
 
 	disk *simDisk
 
@@ -394,6 +395,10 @@ func (w *World) applyFull(n *Node, b *Block) {
 		w.applyRebatched(n, b)
 		return
 	}
+	w.forgedTraffic(n, b, false)
+	if n.dead || w.stop || n.tainted {
+		return
+	}
 	r := SubRng(b.Seed^uint64(n.idx+1)*0x1f3, "applyfull")
 	remember := n.cfg.Kind == "mapfull" && r.Pct(25)
 	if len(dels) > 0 || r.Pct(30) {
@@ -475,6 +480,10 @@ func (w *World) applyPartial(n *Node, b *Block) {
 			bDels, bProof = d2, p2
 		}
 	}
+	w.forgedTraffic(n, b, false)
+	if n.dead || w.stop || n.tainted {
+		return
+	}
 	if len(b.Dels) > 0 {
 		usePartial := w.on("c14proto") && n.cfg.Relay == "" && SubRng(b.Seed^uint64(n.idx), "pp").Pct(60)
 		if usePartial {
@@ -499,6 +508,10 @@ func (w *World) applyPartial(n *Node, b *Block) {
 				return
 			}
 		}
+	}
+	w.forgedTraffic(n, b, true)
+	if n.dead || w.stop || n.tainted {
+		return
 	}
 	flags := w.remFlags(n, b)
 	nb.leaves = make([]u.Leaf, len(b.Adds), len(b.Adds)+1)
@@ -675,6 +688,12 @@ func (w *World) attr(n *Node, base, kind string) string {
 	if w.inTwin {
 		return base
 	}
+	if n.hasForged && !n.hasRestore && !w.twinShows(n, kind, "norestore") {
+		// a twin that repeats every operation of the node except the forged
+		// (rejected) messages is fine: a rejected call left something behind,
+		// which the property that owns the oracle does not allow in any state
+		return base
+	}
 	if w.twinShows(n, kind, "forward") {
 		return base
 	}
@@ -698,4 +717,125 @@ func (w *World) attr(n *Node, base, kind string) string {
 		return "C06"
 	}
 	return "C09"
+}
+
+// ---------------------------------------------------------------------------
+// forged traffic: a message that must be rejected arrives before the honest one
+
+// forgedTraffic delivers, with the scenario's probability, a corrupted version
+// of block b to node n (which is in b's pre-state).  The library must reject
+// it, and the rejected call must leave nothing behind: all of the node's
+// oracles are evaluated against the unchanged model state afterwards.
+//
+//	verify   Verify(remember) with one proof hash or one deleted hash replaced
+//	partial  VerifyPartialProof(remember=true) with one fetched hash replaced
+//	modify   map forests: Modify whose deletion list carries an unknown hash
+//	         behind tracked ones (rejected by its all-or-nothing precondition)
+//
+// afterVerify: called between the honest Verify(remember) and Modify of a
+// partial forest (only the modify kind applies there: the deletions are cached).
+func (w *World) forgedTraffic(n *Node, b *Block, afterVerify bool) {
+	if w.sc.Forged <= 0 || len(b.Dels) == 0 || n.tainted || n.dead || w.inTwin {
+		return
+	}
+	salt := uint64(0xf06ed)
+	if afterVerify {
+		salt = 0xf07ed
+	}
+	r := SubRng(b.Seed^uint64(n.idx+1)*salt, "forged")
+	if !r.Pct(w.sc.Forged) {
+		return
+	}
+	pre := b.Pre
+	var fresh H
+	x := r.Next()
+	for i := range fresh {
+		fresh[i] = byte(x >> (uint(i%8) * 8))
+		if i%8 == 7 {
+			x = mix64(x)
+		}
+	}
+	fresh[0], fresh[31] = 0xfa, fresh[31]|1
+	dels := padH(b.Dels)
+	proof := u.Proof{Targets: padU(b.Proof.Targets), Proof: padH(b.Proof.Proof)}
+	kind := "verify"
+	switch {
+	case afterVerify:
+		kind = "modify"
+	case n.isMap() && !n.isPartial() && r.Pct(40):
+		kind = "modify"
+	case n.isPartial() && r.Pct(35):
+		kind = "partial"
+	}
+	var err error
+	var pan bool
+	what := ""
+	switch kind {
+	case "verify":
+		if len(proof.Proof) > 0 && r.Bool() {
+			proof.Proof[r.Intn(len(proof.Proof))] = fresh
+			what = "a proof hash replaced"
+		} else {
+			dels[r.Intn(len(dels))] = fresh
+			what = "a deleted hash replaced"
+		}
+		remember := n.isPartial() || (n.isMap() && r.Bool())
+		g := w.fp.begin("Verify", dels, proof.Targets, proof.Proof)
+		err, pan = guard(func() error { return n.acc.Verify(dels, proof, remember) })
+		g.end()
+	case "partial":
+		var missing []uint64
+		guard(func() error { missing = n.mp.GetMissingPositions(proof.Targets); return nil })
+		L := pre.Layout()
+		fetched := make([]H, 0, len(missing))
+		for _, p := range missing {
+			h, _ := L.HashAt(p, L.R)
+			fetched = append(fetched, h)
+		}
+		if len(fetched) > 0 {
+			fetched[r.Intn(len(fetched))] = fresh
+			what = "a fetched hash replaced"
+		} else {
+			dels[r.Intn(len(dels))] = fresh
+			what = "a deleted hash replaced"
+		}
+		fetched = padH(fetched)
+		g := w.fp.begin("VerifyPartialProof", proof.Targets, dels, fetched)
+		err, pan = guard(func() error { return n.mp.VerifyPartialProof(proof.Targets, dels, fetched, true) })
+		g.end()
+	case "modify":
+		if !n.isMap() {
+			return
+		}
+		k := 1 + r.Intn(len(dels))
+		d2 := make([]H, 0, len(dels)+1)
+		d2 = append(append(append(d2, dels[:k]...), fresh), dels[k:]...)
+		dels = padH(d2)
+		what = fmt.Sprintf("an unknown hash at index %d of the deletion list", k)
+		leaves := make([]u.Leaf, len(b.Adds))
+		for i := range leaves {
+			leaves[i] = u.Leaf{Hash: b.Adds[i], Remember: r.Bool()}
+		}
+		g := w.fp.begin("Modify", dels, proof.Targets, proof.Proof, leaves)
+		err, pan = guard(func() error { return n.acc.Modify(leaves, dels, proof) })
+		g.end()
+	}
+	w.stats.Events++
+	w.stats.Faults["forged_"+kind]++
+	w.logf("%s: forged message before block %d (%s: %s) -> %v", n.name, b.ID, kind, what, err != nil)
+	switch {
+	case pan:
+		// a panic on untrusted input is C04's matter; the node is rebuilt
+		w.violate(n, "C04", "panic:forged-"+kind, fmt.Sprintf("%s with %s panicked: %v", kind, what, err))
+		n.tainted = true
+		return
+	case err == nil:
+		// accepting a false claim is C03's matter; the node's state is undefined now
+		w.violate(n, "C03", "forged-accepted:"+kind, fmt.Sprintf("%s with %s was accepted", kind, what))
+		n.tainted = true
+		return
+	}
+	w.stats.Reach["forged_rejected_then_state_checked"]++
+	n.hasForged = true
+	w.checkNode(n, pre, "after-rejected-"+kind)
 }
